@@ -359,6 +359,10 @@ def main(argv=None):
         coverage["known_findings_reported"] = sorted(known_hits)
         coverage["violation_groups"] = len(acc.viol)
         coverage["notes"] = _jsonable(acc.notes)
+        if len(acc.outcomes) >= 200000:
+            # the set of distinct outcomes is kept in memory and capped: the reported number is
+            # then a lower bound (counted conservatively), not the exact count
+            coverage["distinct_nontrivial_is_lower_bound"] = True
         ev = {
             "property_id": prop, "tier": args.tier, "seed": seed, "level": level,
             "coverage": _jsonable(coverage), "assumptions": assumptions,
